@@ -47,6 +47,64 @@ mod remote_info;
 #[cfg(feature = "verif-hooks")]
 pub(crate) use self::path_state::verif as path_state_verif;
 
+/// Verification hooks: actor lifecycle events and the pause point before `inbox.close()`.
+///
+/// Everything here is a no-op unless a handler is installed in [`iroh_base::verif_hooks`].
+#[cfg(feature = "verif-hooks")]
+mod verif {
+    use std::sync::atomic::{AtomicU64, Ordering};
+
+    use iroh_base::{EndpointId, TransportAddr, verif_hooks};
+
+    use super::RemoteStateMessage;
+
+    static INSTANCE: AtomicU64 = AtomicU64::new(0);
+
+    /// Event `remote_state:actor_start`, detail `<id> <instance> <n initial msgs>`.
+    pub(super) fn actor_started(id: EndpointId, initial: usize) -> u64 {
+        let instance = INSTANCE.fetch_add(1, Ordering::Relaxed);
+        verif_hooks::event(
+            "remote_state:actor_start",
+            &format!("{id} {instance} {initial}"),
+        );
+        instance
+    }
+
+    /// Event `remote_state:handle`, detail `<id> <instance> <kind> [ports of ip addrs]`.
+    pub(super) fn actor_handles(id: EndpointId, instance: u64, msg: &RemoteStateMessage) {
+        let what = match msg {
+            RemoteStateMessage::ResolveRemote(addrs, _) => {
+                let ports: Vec<String> = addrs
+                    .iter()
+                    .filter_map(|a| match a {
+                        TransportAddr::Ip(a) => Some(a.port().to_string()),
+                        _ => None,
+                    })
+                    .collect();
+                format!("resolve {}", ports.join(","))
+            }
+            RemoteStateMessage::RemoteInfo(_) => "remote_info".to_string(),
+            RemoteStateMessage::AddConnection(..) => "add_connection".to_string(),
+            RemoteStateMessage::SendDatagram(..) => "send_datagram".to_string(),
+            RemoteStateMessage::NetworkChange { .. } => "network_change".to_string(),
+        };
+        verif_hooks::event("remote_state:handle", &format!("{id} {instance} {what}"));
+    }
+
+    /// Pause point `remote_state:before_close`, detail `<id> <instance>`.
+    pub(super) async fn before_close(id: EndpointId, instance: u64) {
+        verif_hooks::point_async("remote_state:before_close", &format!("{id} {instance}")).await;
+    }
+
+    /// Event `remote_state:actor_stop`, detail `<id> <instance> <n leftover msgs>`.
+    pub(super) fn actor_stopped(id: EndpointId, instance: u64, leftover: usize) {
+        verif_hooks::event(
+            "remote_state:actor_stop",
+            &format!("{id} {instance} {leftover}"),
+        );
+    }
+}
+
 /// How often to attempt holepunching.
 ///
 /// If there have been no changes to the NAT address candidates, holepunching will not be
@@ -246,7 +304,11 @@ impl RemoteStateActor {
         shutdown_token: CancellationToken,
     ) -> (EndpointId, Vec<RemoteStateMessage>) {
         trace!("actor started");
+        #[cfg(feature = "verif-hooks")]
+        let verif_instance = verif::actor_started(self.state.endpoint_id, initial_msgs.len());
         for msg in initial_msgs {
+            #[cfg(feature = "verif-hooks")]
+            verif::actor_handles(self.state.endpoint_id, verif_instance, &msg);
             self.handle_message(msg).await;
         }
         let idle_timeout = time::sleep(ACTOR_MAX_IDLE_TIMEOUT);
@@ -280,6 +342,10 @@ impl RemoteStateActor {
                     break;
                 }
                 msg = inbox.recv() => {
+                    #[cfg(feature = "verif-hooks")]
+                    if let Some(msg) = &msg {
+                        verif::actor_handles(self.state.endpoint_id, verif_instance, msg);
+                    }
                     match msg {
                         Some(msg) => self.handle_message(msg).await,
                         None => break,
@@ -335,6 +401,8 @@ impl RemoteStateActor {
             }
         }
 
+        #[cfg(feature = "verif-hooks")]
+        verif::before_close(self.state.endpoint_id, verif_instance).await;
         inbox.close();
         // There might be a race between checking `inbox.is_empty()` and `inbox.close()`,
         // so we pull out all messages that are left over.
@@ -342,6 +410,8 @@ impl RemoteStateActor {
         inbox.recv_many(&mut leftover_msgs, inbox.len()).await;
 
         trace!("actor terminating");
+        #[cfg(feature = "verif-hooks")]
+        verif::actor_stopped(self.state.endpoint_id, verif_instance, leftover_msgs.len());
         (self.state.endpoint_id, leftover_msgs)
     }
 
